@@ -41,6 +41,21 @@ def main():
     except hlib.ReplaySkip as e:
         print("REPLAY " + json.dumps({"reproduced": False, "outcome": "assumption violated: " + str(e)}))
         return
+    except (AttributeError, TypeError) as e:
+        # the code under test needed something from a harness stand-in (stub lexer/token/production/regex/random/
+        # Decimal object) that the stand-in does not provide: a limitation of the harness, not a property violation
+        tb = traceback.extract_tb(e.__traceback__)
+        where = f"{os.path.basename(tb[-1].filename)}:{tb[-1].lineno}" if tb else "?"
+        standins = ("'Lexer' object", "'Tok' object", "'P' object", "'Sym' object", "'StubLexer' object", "'RegexStub' object",
+                    "'RandStub' object", "'DecStub' object", "'FakeMatch' object", "'_Tok' object", "'_Lexer' object", "'_P' object",
+                    "'Stub' object", "'LenDict' object", "'SizedList' object", "'SizedStr' object")
+        if isinstance(e, AttributeError) and any(x in str(e) for x in standins):
+            print("REPLAY " + json.dumps({"reproduced": False,
+                                          "outcome": f"harness stand-in incomplete for this code ({e} @ {where}): obligation not applicable"}))
+            return
+        print("REPLAY " + json.dumps({"reproduced": True,
+                                      "outcome": f"{type(e).__name__}: {e} @ {where} args={call}"}))
+        return
     except Exception as e:
         tb = traceback.extract_tb(e.__traceback__)
         where = f"{os.path.basename(tb[-1].filename)}:{tb[-1].lineno}" if tb else "?"
